@@ -287,7 +287,7 @@ KINDS = [
     'unknownType',
     'kaLen20',
     'rrBadLen',
-    'notifBadLen',  # NOTIFICATION of length 20 (F32)
+    'notifBadLen',  # NOTIFICATION of length 20 (F32, repaired: closed without reply like any NOTIFICATION)
     'openShort',  # OPEN shorter than the 29 octets of its fixed part
     # OPEN faults
     'openVersion',
@@ -910,9 +910,9 @@ def first_difference(script: list[list], impl: list[list[str]], model: list[list
 # ---------------------------------------------------------------------------------------------
 # scripts from the model's own alphabet
 
-FAULT_KINDS = ['badMarker', 'badLength', 'tooLong', 'unknownType', 'kaLen20', 'rrBadLen', 'notifBadLen', 'openShort', 'openVersion', 'openOptParam', 'updAttrLen', 'updNlri']
+FAULT_KINDS = ['badMarker', 'badLength', 'tooLong', 'unknownType', 'kaLen20', 'rrBadLen', 'openShort', 'openVersion', 'openOptParam', 'updAttrLen', 'updNlri']
 SEM_KINDS = ['openAs', 'openId0', 'openHold1']
-PLAIN_KINDS = ['open', 'openLow', 'keepalive', 'update', 'updMissing', 'updAsPath', 'notification', 'refresh', 'operational']
+PLAIN_KINDS = ['open', 'openLow', 'keepalive', 'update', 'updMissing', 'updAsPath', 'notification', 'notifBadLen', 'refresh', 'operational']
 
 STAGES: dict[str, tuple[list[list], int]] = {
     # name: (prefix, connection id in use afterwards; 0 = none)
@@ -931,6 +931,9 @@ STAGES: dict[str, tuple[list[list], int]] = {
     'opensent-stopped': ([['start'], ['connectOk'], ['stop']], 1),
     'established-stopped': ([['start'], ['connectOk'], ['recv', 1, 'open'], ['recv', 1, 'keepalive'], ['tick'], ['queueRefresh'], ['stop']], 1),
     'established-stopped-adopted': ([['start'], ['connectOk'], ['recv', 1, 'open'], ['recv', 1, 'keepalive'], ['tick'], ['queueRefresh'], ['announce', 1], ['stop'], ['incoming']], 2),
+    # stop() then reestablish() / teardown(): `_restart` is armed again and the stopped peer adopts after all
+    'established-stopped-rearmed-adopted': ([['start'], ['connectOk'], ['recv', 1, 'open'], ['recv', 1, 'keepalive'], ['tick'], ['queueRefresh'], ['stop'], ['reestablish'], ['incoming']], 2),
+    'fresh-stopped-rearmed-adopted': ([['start'], ['connectOk'], ['recv', 1, 'open'], ['recv', 1, 'keepalive'], ['stop'], ['teardown', 2], ['incoming']], 2),
     'fresh-stopped-adopted': ([['start'], ['connectOk'], ['recv', 1, 'open'], ['recv', 1, 'keepalive'], ['stop'], ['incoming']], 2),
     'second-session': ([['start'], ['connectOk'], ['recv', 1, 'open'], ['recv', 1, 'keepalive'], ['tick'], ['eof', 1], ['start'], ['connectOk'], ['recv', 2, 'open'], ['recv', 2, 'keepalive']], 2),
 }
@@ -1012,7 +1015,7 @@ def random_script(rng: Any, drv: Any, maxlen: int, fault_weight: float, cfg: dic
         def recv(kinds: list[str]) -> list:
             return ['recv', c, rng.choice(kinds)]
 
-        fault = lambda: recv(FAULT_KINDS + SEM_KINDS + ['operational', 'notification'])  # noqa: E731
+        fault = lambda: recv(FAULT_KINDS + SEM_KINDS + ['operational', 'notification', 'notifBadLen'])  # noqa: E731
         if x < 0.10:
             ev = rng.choice(alphabet(rng.choice([c, max(1, c - 1), nconn + 1])))
         elif pc in ('backoff', 'done'):
@@ -1122,8 +1125,8 @@ def cause_of(ev: list, state: str, hold: int) -> tuple[str, bool] | None:
         kind = ev[2]
         if kind in FAULT_KINDS:
             return f'fault {kind}', True
-        if kind == 'notification':
-            return None
+        if kind in ('notification', 'notifBadLen'):
+            return None  # the peer closes the session, well-formed or not (RFC 4271 6.4): no reply
         if kind == 'operational':
             return 'operational', False  # ignoring an unsupported message is tolerated, answering wrongly is not
         if state == 'OPENSENT':
